@@ -40,7 +40,7 @@ Definition corr_b (c : case) : bool :=
   | Site site maxlen s code rb =>
       match str_to_bytes maxlen s with
       | Ok b => (code =? 0) && rl_eqb (prog_err (negb (site =? 4)) (bytes_to_str b)) rb
-      | Err _ => (code =? 1) && rl_eqb rb (Err 0)
+      | Err e => (code =? (if e =? 1 then 1 else 23)) && rl_eqb rb (Err 0)
       end
   | Read b r => rl_eqb (bytes_to_str b) r
   | RoleChain s e g h d e2 =>
@@ -71,28 +71,6 @@ Definition oracle_b (c : case) : bool :=
       else negb (readable 32 s)
   end.
 
-(* known classes, each pinned to the exact misbehaviour observed on the unchanged tree:
-   1 ExactFill   : accepted, length = field width, no NUL  -> readback fails (InvalidFormat)
-   2 InteriorNul : accepted, contains NUL                  -> reads back the prefix before the first NUL *)
-Definition prefix_before_nul (s : list Z) : list Z :=
-  match position_nul s with Some n => firstn n s | None => s end.
-Definition is_format_err (rb : res (list Z)) : bool :=
-  match rb with Err e => (e =? 2) || (e =? 23) | Ok _ => false end.
-
-Definition known_name (maxlen : Z) (s : list Z) (accepted : bool) (rb : res (list Z)) : Z :=
-  if negb accepted then 0
-  else if has_nul s then (if rl_eqb rb (Ok (prefix_before_nul s)) then 2 else 0)
-  else if blen s =? maxlen then (if is_format_err rb then 1 else 0)
-  else 0.
-
-Definition known_b (c : case) : Z :=
-  match c with
-  | RT maxlen s acc rb => known_name maxlen s (match acc with Ok _ => true | Err _ => false end) rb
-  | Site _ maxlen s code rb => known_name maxlen s (code =? 0) rb
-  | Read _ _ => 0
-  | RoleChain s e g h d e2 =>
-      (* an unreadable role name: created, then every use fails with InvalidArgument *)
-      if (e =? 0) && (g =? 1) && rb_eqb h (Err 5) && (d =? 1) && (e2 =? 1) then
-        if has_nul s then 2 else if blen s =? 32 then 1 else 0
-      else 0
-  end.
+(* The two classes found on the original tree (ExactFill, InteriorNul) were repaired in /repo
+   commit 71aae69; nothing is tolerated any more: a recurrence is an oracle failure. *)
+Definition known_b (c : case) : Z := 0.
